@@ -131,6 +131,22 @@ def build(ctx, quick):
                         s.set(4 * ch, hexmap(m))
                         s.get()
                     S.append(s)
+    # -- accepted, then refused, then the file: the refused call must not take the accepted map's mask / tag out of the header either
+    for name, major, goods in (("wav", 0x01, {1: [2], 2: [3, 4], 4: [2, 3, 9, 10]}), ("wavex", 0x13, {1: [2], 2: [3, 4], 4: [2, 3, 11, 8]}),
+                               ("rf64", 0x22, {1: [3], 2: [2, 4], 4: [2, 3, 4, 11]}), ("aiff", 0x02, {1: [1], 2: [2, 3], 4: [2, 3, 9, 10]}),
+                               ("caf", 0x18, {1: [1], 2: [2, 3], 4: [2, 3, 4, 8]})):
+        fmt = (major << 16) | 2
+        for ch, good in goods.items():
+            for bad in ([1] * ch, list(reversed(good)) if ch > 1 else [26], [5] * ch):
+                s = Script("acc-ref-%s-ch%d-%s" % (name, ch, "".join("%02x" % b for b in bad)), fmt, ch)
+                s.set(4 * ch, hexmap(good))
+                s.get()
+                s.set(4 * ch, hexmap(bad))
+                s.get()
+                s.write()
+                s.reopen()
+                s.get()
+                S.append(s)
     # -- seeded histories on every container
     n_hist = 6 if quick else 40
     for name, major in CONTAINERS:
